@@ -632,3 +632,41 @@ Example C12_gen_nonvacuous :
   map u_glo (filter (fun u => Nat.eqb (u_addr u) 1) (line_updates cf d 1 cells)) = [25 # 6; 49 # 6; 144 # 6; 100 # 6; 1 # 6] /\
   length (filter (fun u => Nat.eqb (u_addr u) 2) (line_updates cf d 1 cells)) = 3%nat.
 Proof. vm_compute. repeat split; reflexivity. Qed.
+
+(* ------------------------------------------------------------------ FFT variogram map (VMap::_grid_fft): index logic *)
+(* along one axis: the circular cross-correlation of period P of two arrays of length N padded with zeros equals the linear
+   cross-correlation (the sum over the pairs x, x + k) at every lag |k| <= h as soon as P >= N + h: no wrap-around term *)
+Theorem C12_fft_no_wraparound : forall (P h : nat) (a b : list Q) (k : Z),
+  length b = length a -> (length a + h <= P)%nat -> (- Z.of_nat h <= k <= Z.of_nat h)%Z ->
+  circ_corr P a b k == lin_corr a b k.
+Proof. exact circ_eq_lin. Qed.
+Print Assumptions C12_fft_no_wraparound.
+
+(* the index fact behind it, usable axis by axis in any dimension: the wrapped index of x + k is x + k when that lies at or
+   after the origin, and falls in the zero padding [N, P) when x + k is negative *)
+Theorem C12_fft_wrap_index : forall (P N h x : nat) (k : Z),
+  (N + h <= P)%nat -> (x < N)%nat -> (- Z.of_nat h <= k <= Z.of_nat h)%Z ->
+  let j := ((Z.of_nat x + k) mod Z.of_nat P)%Z in
+  ((0 <= Z.of_nat x + k)%Z -> j = (Z.of_nat x + k)%Z) /\
+  ((Z.of_nat x + k < 0)%Z -> (Z.of_nat N <= j < Z.of_nat P)%Z).
+Proof. exact wrap_index. Qed.
+Print Assumptions C12_fft_wrap_index.
+
+(* the size chosen by the code, ceil((N + M - 1)/8)*8 with M = 2h + 1 map cells, is large enough ... *)
+Theorem C12_fft_size_sufficient : forall n h, (n + h <= fft_size n (2 * h + 1))%nat.
+Proof. exact fft_size_sufficient. Qed.
+Print Assumptions C12_fft_size_sufficient.
+(* ... so that every extracted lag of the FFT path is a pairwise sum *)
+Theorem C12_fft_is_pairwise : forall (n h : nat) (a b : list Q) (k : Z),
+  length a = n -> length b = n -> (- Z.of_nat h <= k <= Z.of_nat h)%Z ->
+  circ_corr (fft_size n (2 * h + 1)) a b k == lin_corr a b k.
+Proof. exact fft_no_wraparound. Qed.
+Print Assumptions C12_fft_is_pairwise.
+
+(* P = N + h - 1 is one short: N = 5, h = 4, P = 8, indicator arrays: the lag +4 (one pair: x = 0 with x = 4) also receives the
+   pair of lag -4 wrapped around; and a size ceil((N + h - 1)/8)*8 would be exactly that P for these N, h *)
+Example C12_fft_wraparound_refuted :
+  let a := [1; 1; 1; 1; 1] in
+  lin_corr a a 4 == 1 /\ circ_corr 8 a a 4 == 2 /\ circ_corr 9 a a 4 == 1 /\
+  ((5 + 4 - 1 + 7) / 8 * 8 = 8)%nat /\ fft_size 5 (2 * 4 + 1) = 16%nat /\ circ_corr 16 a a 4 == 1 /\ circ_corr 16 a a (-4) == 1.
+Proof. vm_compute. repeat split; reflexivity. Qed.
